@@ -535,7 +535,7 @@ class UnitCalculator(object):
             exponent = quantity_per_arg[1]
 
             # exponent must be dimensionless
-            if exponent.units != dimensionless:
+            if not self._is_dimensionless(exponent):
                 logger.critical('Exponent of Pow is not dimensionless %s', expr)
                 raise InputArgumentsMustBeDimensionlessError(str(expr), 'second')
 
